@@ -663,6 +663,15 @@ with x(0) + 1 select foo(0) := bar(1, 2) when 0 | 1, def when others;",
     }
 
     #[test]
+    fn format_matching_selected_assignments() {
+        check_statements(&[
+            "with x select? foo := bar when \"1-\", def when others;",
+            "with x select? foo <= bar when \"1-\", def when others;",
+            "with x select? foo <= force bar when \"1-\", def when others;",
+        ]);
+    }
+
+    #[test]
     fn format_selected_signal_assignments() {
         check_statements(&[
             "with x(0) + 1 select foo(0) <= bar(1, 2) when 0 | 1, def when others;",
